@@ -1,10 +1,14 @@
 package checks
 
 import (
+	"encoding/binary"
 	"encoding/json"
 	"errors"
 	"fmt"
+	"github.com/twpayne/go-geom/encoding/ewkb"
 	"github.com/twpayne/go-geom/encoding/igc"
+	"github.com/twpayne/go-geom/encoding/wkb"
+	"github.com/twpayne/go-geom/encoding/wkbcommon"
 	"math"
 	"strings"
 
@@ -54,7 +58,7 @@ func (cs *c01Case) UnmarshalJSON(b []byte) error {
 func init() {
 	engine.Register(&engine.Check{
 		ID: "C01", Level: "exploration",
-		Rule: "every shape of the universe U (7 types x layouts XY,XYZ,XYM,XYZM,Layout(5),Layout(7) + NoLayout empties; part sizes 0..2, <=3 parts, <=3 (quick 2) polygons of <=2 rings) built by SetCoords, by New*Flat from the model's own flattening, by Push and (points) by NewPointFlatMaybeEmpty, plus Clone; special-float sweep (9 values x every ordinate position); larger structures (5..65 polygons/parts, lines of 200..2600 coordinates) in four layouts; every single-coordinate length mismatch (stride-1, stride+1, 0, nil) at every position. distinct_nontrivial = distinct (model, mode, mismatch) cases with at least one coordinate or one part Also: Clone followed by a Push on both values with parts of different sizes (both must stay well formed and read back their own parts), and the IGC reader's error path (every single-column substitution and truncation of a B record under three I-record states: the track returned together with the error must be well formed).",
+		Rule: "every shape of the universe U (7 types x layouts XY,XYZ,XYM,XYZM,Layout(5),Layout(7) + NoLayout empties; part sizes 0..2, <=3 parts, <=3 (quick 2) polygons of <=2 rings) built by SetCoords, by New*Flat from the model's own flattening, by Push and (points) by NewPointFlatMaybeEmpty, plus Clone; special-float sweep (9 values x every ordinate position); larger structures (5..65 polygons/parts, lines of 200..2600 coordinates) in four layouts; every single-coordinate length mismatch (stride-1, stride+1, 0, nil) at every position. distinct_nontrivial = distinct (model, mode, mismatch) cases with at least one coordinate or one part Also: Clone followed by a Push on both values with parts of different sizes (both must stay well formed and read back their own parts), binary multi-geometries and collections whose member records announce another dimensionality than the outer record (every pair of XY/XYZ/XYM/XYZM, both byte orders, WKB / WKB-NaN / EWKB: a returned geometry must be well formed), and the IGC reader's error path (every single-column substitution and truncation of a B record under three I-record states: the track returned together with the error must be well formed).",
 		Run:  c01Run,
 		Replay: func(c *engine.Ctx, kind string, raw json.RawMessage) {
 			cs := decodeCase[c01Case](raw)
@@ -67,6 +71,10 @@ func init() {
 				}
 				return
 			}
+			if kind == "decoded" {
+				c01Decoded(c, cs)
+				return
+			}
 			c01Exec(c, cs)
 		},
 		Assumptions: []string{
@@ -76,8 +84,110 @@ func init() {
 	})
 }
 
+// c01Decoded: "any decoder" - one binary input (Text: the bytes; Mode: wkb | wkb-nan | ewkb) whose
+// result, if the decoder returns one, must be well formed.
+func c01Decoded(c *engine.Ctx, cs c01Case) {
+	c.Count("evaluations", 1)
+	b := []byte(cs.Text)
+	var t geom.T
+	var err error
+	if p, _ := engine.Guard(func() {
+		switch cs.Mode {
+		case "ewkb":
+			t, err = ewkb.Unmarshal(b)
+		case "wkb-nan":
+			t, err = wkb.Unmarshal(b, wkbcommon.WKBOptionEmptyPointHandling(wkbcommon.EmptyPointHandlingNaN))
+		default:
+			t, err = wkb.Unmarshal(b)
+		}
+	}); p != nil {
+		c.Violate("decoded/"+cs.Mode+"/panic", fmt.Sprintf("decoder panicked on %x: %v", b, p), "decoded", cs)
+		return
+	}
+	if err != nil || t == nil || isNilT(t) {
+		c.Count("decoded_rejected", 1)
+		return
+	}
+	if werr := ref.WellFormed(t); werr != nil {
+		c.Violate("decoded/"+cs.Mode+"/ill-formed", fmt.Sprintf("decoding %x returned a geometry that is not well formed: %v", b, werr), "decoded", cs)
+		return
+	}
+	c.Count("decoded_well_formed", 1)
+}
+
+// c01MixedMembers: multi-geometries and collections whose member records announce another
+// dimensionality than the outer record (for every pair of XY/XYZ/XYM/XYZM, both byte orders, WKB,
+// WKB with NaN empty points, EWKB): whatever a decoder makes of them, a returned geometry holds
+// whole coordinates of its own stride.
+func c01MixedMembers(c *engine.Ctx) {
+	type job struct {
+		kind    ref.Kind
+		lo, li  geom.Layout
+		xdr     bool
+		mode    string
+		members int
+	}
+	var jobs []job
+	for _, k := range []ref.Kind{ref.MultiPoint, ref.MultiLineString, ref.MultiPolygon, ref.Collection} {
+		for _, lo := range ref.Layouts4 {
+			for _, li := range ref.Layouts4 {
+				for _, xdr := range []bool{false, true} {
+					for _, mode := range []string{"wkb", "wkb-nan", "ewkb"} {
+						for _, n := range []int{1, 2} {
+							jobs = append(jobs, job{k, lo, li, xdr, mode, n})
+						}
+					}
+				}
+			}
+		}
+	}
+	c.Parallel(len(jobs), func(i int) {
+		j := jobs[i]
+		ext := j.mode == "ewkb"
+		var outer *ref.G
+		var member func(l geom.Layout, k int) *ref.G
+		switch j.kind {
+		case ref.MultiPoint:
+			outer = ref.NewMultiPoint(j.lo, nil, ref.Counter())
+			member = func(l geom.Layout, k int) *ref.G { return ref.NewPoint(l, true, ref.CounterFrom(float64(10*k))) }
+		case ref.MultiLineString:
+			outer = ref.NewParts(ref.MultiLineString, j.lo, nil, ref.Counter())
+			member = func(l geom.Layout, k int) *ref.G {
+				return ref.NewLine(ref.LineString, l, 2+k, ref.CounterFrom(float64(10*k)))
+			}
+		case ref.MultiPolygon:
+			outer = ref.NewMultiPolygon(j.lo, nil, ref.Counter())
+			member = func(l geom.Layout, k int) *ref.G {
+				return ref.NewParts(ref.Polygon, l, []int{4, 1 + k}, ref.CounterFrom(float64(10*k)))
+			}
+		default:
+			outer = ref.NewCollection(j.lo)
+			member = func(l geom.Layout, k int) *ref.G {
+				return ref.NewLine(ref.LineString, l, 2, ref.CounterFrom(float64(10*k)))
+			}
+		}
+		b := append([]byte{}, ref.EncodeWKB(outer, j.xdr, ext)...) // header with count 0 at the end
+		cnt := b[len(b)-4:]
+		if j.xdr {
+			binary.BigEndian.PutUint32(cnt, uint32(j.members))
+		} else {
+			binary.LittleEndian.PutUint32(cnt, uint32(j.members))
+		}
+		for k := 0; k < j.members; k++ {
+			l := j.li
+			if k == 1 {
+				l = j.lo // second member in the outer layout: the mismatch is the FIRST member only
+			}
+			b = append(b, ref.EncodeWKB(member(l, k), j.xdr, ext)...)
+		}
+		c.Count("mixed_member_inputs", 1)
+		c01Decoded(c, c01Case{Mode: j.mode, Text: string(b)})
+	})
+}
+
 func c01Run(c *engine.Ctx) {
 	c01IGC(c)
+	c01MixedMembers(c)
 	maxPolys := 2
 	if c.Thorough() {
 		maxPolys = 3
